@@ -1305,7 +1305,8 @@ def lines_split_on_newline_only(k: Kit, rule: str) -> None:
     rep = k.rep
     n = 0
     for q in ('known_hosts.SSHKnownHosts.load',
-              'auth_keys.SSHAuthorizedKeys.load'):
+              'auth_keys.SSHAuthorizedKeys.load',
+              'sshsig.SSHAllowedSigners.load'):
         fi = k.func(q)
         bad = [c for c in ast.walk(fi.node) if is_call(c, 'splitlines')]
         spl = [c for c in ast.walk(fi.node) if is_call(c, 'split') and
@@ -1322,7 +1323,7 @@ def lines_split_on_newline_only(k: Kit, rule: str) -> None:
                   'containing \\u2028 in authorized_keys authorises a '
                   'second key without its from= restriction',
                   fi.loc(bad[0]) if bad else fi.loc(fi.node))
-    rep.floor(rule, 'trust file loaders', n, 2)
+    rep.floor(rule, 'trust file loaders', n, 3)
 
 
 def option_values_required(k: Kit, rule: str) -> None:
